@@ -297,3 +297,95 @@ func TestC10_Compose(t *testing.T) {
 }
 
 func lpList(p patch.Patch) []patch.Patch { return []patch.Patch{p} }
+
+// TestC10_Inapplicable: RFC 6902 also says when an operation is an error (missing target, failed test, location that is not
+// a member / not an index of the array it addresses); the whole patch then fails. One such operation, after any number
+// of applicable ones, must make ApplyPatches fail.
+func TestC10_Inapplicable(t *testing.T) {
+	st := statsFor("C10")
+	composer := doccomposer.New()
+	check(t, "C10", 1500, func(t *rapid.T) {
+		doc := genDocument(t, false)
+		if rapid.IntRange(0, 2).Draw(t, "withArrays") == 0 {
+			doc["arr"] = []interface{}{"a", "b", "c"}
+			doc["o"] = map[string]interface{}{"list": []interface{}{float64(1), map[string]interface{}{"k": "v"}}}
+		}
+		var ops []interface{}
+		var work interface{} = doc
+		if p, _ := genValidIetfPatch(t, doc, st); p != nil && rapid.Bool().Draw(t, "validPrefix") {
+			for _, o := range p["patches"].([]interface{}) {
+				next, err := refPatch6902(work, o.(map[string]interface{}))
+				if err != nil {
+					t.Fatalf("harness: valid prefix does not apply: %v", err)
+				}
+				work = next
+				ops = append(ops, o)
+			}
+		}
+		var bad map[string]interface{}
+		why := ""
+		for try := 0; try < 12 && bad == nil; try++ {
+			op := genOp6902(t, work, true)
+			path, _ := op["path"].(string)
+			from, _ := op["from"].(string)
+			if touchesProtected(path) || (op["from"] != nil && touchesProtected(from)) {
+				continue
+			}
+			if strings.HasPrefix(path, "/alsoKnownAs") || strings.HasPrefix(from, "/alsoKnownAs") {
+				continue // null vs [] spelling of an empty list is unspecified
+			}
+			if _, err := refPatch6902(work, op); err != nil {
+				bad, why = op, err.Error()
+			}
+		}
+		if bad == nil {
+			st.Exclude("no inapplicable operation drawn")
+			return
+		}
+		ops = append(ops, bad)
+		p := map[string]interface{}{"action": "ietf-json-patch", "patches": ops}
+		lp, err := libPatch(p)
+		if err != nil {
+			t.Fatalf("C10 harness: %v", err)
+		}
+		if verr := patchvalidator.Validate(lp); verr != nil {
+			st.Exclude("inapplicable operation refused by the validator already")
+			return
+		}
+		journal("ApplyPatches", []byte(refJCS(map[string]interface{}{"doc": doc, "patches": []interface{}{p}})))
+		got, aerr := composer.ApplyPatches(libDoc(doc), lpList(lp))
+		if aerr == nil && replaceOfMissingMember(work, bad) && knownOpen("F20") {
+			st.Known("F20", "replace of a missing object member is applied as add")
+			return
+		}
+		if aerr == nil {
+			t.Fatalf("C10 ietf-json-patch with an operation that RFC 6902 makes an error (%s) was applied\n doc=%s\n ops=%s\n result=%s", why, refJCS(doc), refJCS(ops), docCanon(got))
+		}
+		kind, _ := bad["op"].(string)
+		st.Case(len(ops) > 1, "inapplicable|"+refJCS(doc)+refJCS(ops), "inapplicable", "inapplicable-"+kind)
+		st.Sample("inapplicable", 2, func() interface{} { return map[string]interface{}{"ops": ops, "why": why} })
+	})
+}
+
+// replaceOfMissingMember is the signature of finding F20: a 'replace' whose target is a member that does not exist in an
+// existing object.
+func replaceOfMissingMember(doc interface{}, op map[string]interface{}) bool {
+	if op["op"] != "replace" {
+		return false
+	}
+	path, _ := op["path"].(string)
+	toks, err := parsePointer(path)
+	if err != nil || len(toks) == 0 {
+		return false
+	}
+	parent, err := ptrGet(doc, toks[:len(toks)-1])
+	if err != nil {
+		return false
+	}
+	obj, ok := parent.(map[string]interface{})
+	if !ok {
+		return false
+	}
+	_, present := obj[toks[len(toks)-1]]
+	return !present
+}
